@@ -151,9 +151,13 @@ func c19Compare(r *explore.Rec, ti int, given, eff [4]string, family string) {
 // c19OpaqueBodies: two raw (and two comment) blocks whose bodies END in characters of the delimiters themselves
 // (the first character of the tag opener, the whole opener, the first character of the object opener and of the tag
 // closer) right before the end tag: each block ends at its own first end tag, the bodies are verbatim / dropped.
-func c19OpaqueBodies(r *explore.Rec, q [4]string) {
+func c19OpaqueBodies(r *explore.Rec, q [4]string, all bool) {
 	seen := map[string]bool{}
-	for _, c := range []string{q[2][:1], q[2], q[0][:1], q[3][:1], q[2][len(q[2])-1:]} {
+	cs := []string{q[2][:1], q[2], q[0][:1], q[3][:1], q[2][len(q[2])-1:]}
+	if !all {
+		cs = cs[:2] // (thorough enumerates 40 times as many quadruples: the two characters taken from the tag opener)
+	}
+	for _, c := range cs {
 		if seen[c] {
 			continue
 		}
@@ -212,7 +216,7 @@ func c19Families(tier string) []explore.Family {
 		for ti := 0; ti < nt; ti++ {
 			c19Compare(r, ti, q, q, "len<=2")
 		}
-		c19OpaqueBodies(r, q)
+		c19OpaqueBodies(r, q, tier != "thorough")
 	}})
 	// quadruples that spell the SAME string when concatenated (e.g. < >> [ ] and <> > [ ]) used back to back, in both
 	// orders, with nothing scanned in between: whatever is remembered about delimiters must distinguish them.
